@@ -269,14 +269,16 @@ func sensitiveObjects() map[string][]gen.Obj {
 // ---- configuration histories (replayable) -----------------------------------
 
 type c11Op struct {
-	Op      string   `json:"op"` // set | filter | lint
-	Reg     int      `json:"reg"`
-	Doc     string   `json:"doc,omitempty"`
-	Alias   bool     `json:"alias,omitempty"` // filter with empty options (returns the registry itself)
-	Ex      string   `json:"exclude,omitempty"`
-	ObjKind gen.Kind `json:"obj_kind,omitempty"`
-	ObjDER  []byte   `json:"obj_der,omitempty"`
-	ObjName string   `json:"obj_name,omitempty"`
+	Op    string `json:"op"` // set | filter | lint
+	Reg   int    `json:"reg"`
+	Doc   string `json:"doc,omitempty"`
+	Alias bool   `json:"alias,omitempty"` // filter with empty options (returns the registry itself)
+	Ex    string `json:"exclude,omitempty"`
+	// Spec: non-empty options that happen to select every lint (a new registry all the same)
+	Spec    *engine.FilterSpec `json:"spec,omitempty"`
+	ObjKind gen.Kind           `json:"obj_kind,omitempty"`
+	ObjDER  []byte             `json:"obj_der,omitempty"`
+	ObjName string             `json:"obj_name,omitempty"`
 }
 
 type c11HistoryCase struct {
@@ -312,7 +314,12 @@ func (h *c11History) text() []string {
 		case "set":
 			out = append(out, fmt.Sprintf("set(%d,%q)", o.Reg, short(o.Doc, 30)))
 		case "filter":
-			out = append(out, fmt.Sprintf("filter(%d,alias=%v)", o.Reg, o.Alias))
+			if o.Spec != nil {
+				b, _ := json.Marshal(o.Spec)
+				out = append(out, fmt.Sprintf("filter(%d,%s)", o.Reg, b))
+			} else {
+				out = append(out, fmt.Sprintf("filter(%d,alias=%v,exclude=%s)", o.Reg, o.Alias, o.Ex))
+			}
 		default:
 			out = append(out, fmt.Sprintf("lint(%d,%s)", o.Reg, o.ObjName))
 		}
@@ -342,10 +349,15 @@ func (h *c11History) step(op c11Op) (sig, msg string, skipped bool) {
 		}
 	case "filter":
 		var fs engine.FilterSpec
-		if !op.Alias {
+		if op.Spec != nil {
+			fs = *op.Spec
+		} else if !op.Alias {
 			fs = engine.FilterSpec{ExcludeNames: []string{op.Ex}}
 		}
-		o, _ := fs.Options()
+		o, ferr := fs.Options()
+		if ferr != nil {
+			return "", "", true
+		}
 		nr, err := r.reg.Filter(o)
 		if err != nil {
 			return "", "", true
@@ -515,6 +527,20 @@ func TestC11(t *testing.T) {
 				op := c11Op{Op: "filter", Reg: rapid.IntRange(0, len(h.regs)-1).Draw(rt, "reg"), Alias: rapid.IntRange(0, 4).Draw(rt, "emptyopts") == 0}
 				if !op.Alias {
 					op.Ex = rapid.SampledFrom([]string{"e_ca_country_name_missing", "w_ct_sct_policy_count_unsatisfied", "e_crl_has_next_update"}).Draw(rt, "ex")
+					// non-empty options that remove nothing: still a registry of its own
+					switch rapid.IntRange(0, 5).Draw(rt, "selectall") {
+					case 0:
+						re := rapid.SampledFrom([]string{"^[a-z]+_", ".", "_", "^(e|w|n)_"}).Draw(rt, "re")
+						op.Spec = &engine.FilterSpec{NameFilter: &re}
+					case 1:
+						var all []string
+						for _, src := range h.regs[op.Reg].reg.Sources() {
+							all = append(all, string(src))
+						}
+						op.Spec = &engine.FilterSpec{IncludeSources: all}
+					case 2:
+						op.Spec = &engine.FilterSpec{IncludeNames: h.regs[op.Reg].reg.Names()}
+					}
 				}
 				if _, _, skipped := h.step(op); skipped {
 					rt.Skip("name already filtered out")
